@@ -331,6 +331,8 @@ fn payload_item(p: &Value) -> Result<Payload, String> {
 
 pub fn replay(args: &[String]) {
     let cases = read_cases(&args[0]);
+    // (a replay file of the session-level model belongs to rtrclient)
+    if !cases.is_empty() && cases.iter().all(|c| c["op"] == "clientstream") { return crate::rtrclient::replay(args); }
     let mut s = Summary::new();
     for c in &cases {
         match c["op"].as_str().unwrap_or("") {
